@@ -279,7 +279,10 @@ def main():
     if nshim < 3:
         die("source shape changed at R11-R13: only %d calls of the wrapped automaton found in src/lib.rs" % nshim)
     applied.append("R11-R13(x%d)" % nshim)
-    tpl_files, tpl_missing = apply_template_rules(files)
+    if "--no-template-rules" in sys.argv:
+        tpl_files, tpl_missing = None, "switched off (--no-template-rules: the rewritten scanner did not compile)"
+    else:
+        tpl_files, tpl_missing = apply_template_rules(files)
     template_rules = tpl_files is not None
     if template_rules:
         files = tpl_files
